@@ -74,6 +74,9 @@ func (f Float32) ToString() String {
 }
 
 func (f Float32) Hash() UInt64 {
+	if f == 0 {
+		f = 0 // -0.0 == 0.0, so both must hash alike
+	}
 	d := xxhash.New()
 	b := make([]byte, 4)
 	binary.LittleEndian.PutUint32(b, math.Float32bits(float32(f)))
